@@ -122,8 +122,9 @@ Proof. reflexivity. Qed.
 
 Lemma render_template_S (f : nat) (t : template) (s : rstate) :
   render_template reg data ft (S f) t s =
-        fold_idx (fun e idx s' => rmap_err (render_element reg data ft f e s') (attach_render t idx))
-                 (t_els t) O (set_current s (t_name t)).
+        rbind (fold_idx (fun e idx s' => rmap_err (render_element reg data ft f e s') (attach_render t idx))
+                        (t_els t) O (set_current s (t_name t)))
+              (fun _ s' => ROk tt (set_current s' (s_current s))).
 Proof. reflexivity. Qed.
 
 Lemma eval_template_0 (t : template) (s : rstate) : eval_template reg data ft O t s = RFuel.
@@ -543,6 +544,7 @@ Lemma expand_partial_S (f : nat) (d : deco_v) (s : rstate) :
         rbind (match dv_tpl d with Some t => eval_template reg data ft f t s | None => ROk tt s end) (fun _ s1 =>
           let tname := dv_name d in
           let current_before := s_current s1 in
+          let depth_before := s_pb_depth s1 in
           let indent_before := s_indent s1 in
           if match s_current s1 with Some c => str_eqb c tname | None => false end
           then rfail RCannotIncludeSelf s1
@@ -564,8 +566,11 @@ Lemma expand_partial_S (f : nat) (d : deco_v) (s : rstate) :
             | None => rfail (RPartialNotFound tname) s1
             | Some partial =>
                 let s2 :=
-                  if str_eqb tname PARTIAL_BLOCK then set_pb_depth s1 (s_pb_depth s1 + 1)%Z
-                  else if Z.ltb 0 (s_pb_depth s1) then set_pb_depth s1 (s_pb_depth s1 - 1)%Z
+                  if str_eqb tname PARTIAL_BLOCK then
+                    match current_pb s1 with
+                    | Some (_, d0) => set_pb_depth s1 d0
+                    | None => s1
+                    end
                   else s1 in
                 let hash_ctx := map (fun kv : str * pj => (fst kv, pj_value (snd kv))) (dv_hash d) in
                 rbind
@@ -584,7 +589,9 @@ Lemma expand_partial_S (f : nat) (d : deco_v) (s : rstate) :
                      let current_blocks := s_blocks s3 in
                      let s4 := set_blocks s3 [b_set_base_value block_new merged] in
                      let s5 := match dv_tpl d with
-                               | Some pb => set_pb_stack s4 (pb :: s_pb_stack s4)
+                               | Some pb =>
+                                   set_pb_depth (set_pb_stack s4 ((pb, s_pb_depth s4) :: s_pb_stack s4))
+                                                (Z.of_nat (S (length (s_pb_stack s4))))
                                | None => s4
                                end in
                      let s6 := set_indent s5 (dv_indent d) in
@@ -593,7 +600,8 @@ Lemma expand_partial_S (f : nat) (d : deco_v) (s : rstate) :
                                  | Some _ => set_pb_stack s (tl (s_pb_stack s))
                                  | None => s
                                  end in
-                       set_indent (set_current (set_blocks sa current_blocks) current_before) indent_before in
+                       set_indent (set_pb_depth (set_current (set_blocks sa current_blocks) current_before)
+                                                depth_before) indent_before in
                      match render_template reg data ft f partial s6 with
                      | ROk u s7 => ROk u (cleanup s7)
                      | RErr e s7 => RErr e (cleanup s7)
